@@ -59,7 +59,7 @@ CLAIMED: dict[str, tuple[str, str, str, str]] = {
     "C18": (
         "Lean 4 proof over executable models of __eq__/__hash__ (hash modelled by its input tree, xor commutative) + correspondence of the == matrix, hash-input classes, dumps and reachability flags on pools of spellings + real-code oracle on all pairs and triples",
         "Machine-checked for all values: equality is an equivalence and equal values have equal hash inputs for versions, string constraints and "
-        "markers; for version constraints under the no-degenerate-range guard (intersect proved never to build one); for specifications and "
+        "markers; for version constraints (parser, intersect and union are proved never to build a degenerate range, so no guard is needed for reachable values); for specifications and "
         "dependencies, transitivity under exact references and hash coherence; interchangeability (same allows/validate) for versions, ranges, "
         "non-union constraints, string constraints and coherent markers. Every run compares the model's == / hash-input classes with real == / "
         "hash() on pools with many spellings of one value and evaluates reflexivity, symmetry, transitivity, hash coherence, interchangeability "
